@@ -47,7 +47,7 @@ Qed.
 (* ---------------------------------------------------------------- estimates stay small *)
 Definition sum_sizes (l : list arrival) : Z := fold_right (fun a acc => a_size a + acc) 0 l.
 
-Definition good_out (M : Z) (o : option (Z * list Z) * Z) : Prop :=
+Definition good_out {B} (M : Z) (o : option (Z * list Z) * B) : Prop :=
   match fst o with
   | None => True
   | Some (e, ss) => 0 <= e <= M /\ (length ss <= 255)%nat /\ Forall u32 ss
@@ -139,7 +139,7 @@ Qed.
 
 (* ... and therefore pack_remb_fci succeeds on every estimate the run returns,
    and the packet decodes to the same SSRC list and a value v <= estimate *)
-Definition encodable_out (o : option (Z * list Z) * Z) : Prop :=
+Definition encodable_out {B} (o : option (Z * list Z) * B) : Prop :=
   match fst o with
   | None => True
   | Some (e, ss) =>
